@@ -221,6 +221,7 @@ func (ex *Exec) bulkCopy(st *State, in ssa.Instruction, et types.Type, dst, src 
 	oldArr := st.mem.arr(srt, st.memGen)
 	newArr := FreshVar("mem_c", oldArr.Sort)
 	st.mem.arrs[srt] = newArr
+	RegisterArrayFrame(newArr, oldArr, Rg(dst.Base))
 	a := BoundVar("a$c", SAddr)
 	d := &SliceV{Base: dst.Base, Off: dst.Off, Len: n, Cap: n}
 	inr := inSliceRange(a, d)
@@ -260,12 +261,22 @@ func (ex *Exec) doAppend(fr *Frame, in ssa.Instruction, c *ssa.CallCommon, args 
 		cont(st, fr, &SliceV{Base: s.Base, Off: s.Off, Len: newLen, Cap: s.Cap})
 	}
 	realloc := func(st *State, fr *Frame) {
+		var segs []Seg
+		isBytes := false
+		if b, ok := et.Underlying().(*types.Basic); ok && b.Kind() == types.Uint8 {
+			isBytes = true
+			segs = append(append([]Seg{}, st.segsOf(s)...), st.segsOf(t)...)
+		}
 		base := st.FreshRegion()
+		newID := *st.nextRg
 		ncap := FreshVar("cap", BV(64))
 		st.Assume(And(BVCmp("bvule", newLen, ncap), BVCmp("bvule", ncap, maxObj)))
 		// copy old
 		ex.bulkCopy(st, nil, et, &SliceV{Base: base, Off: BVc(0, 64), Len: s.Len, Cap: s.Len}, s, s.Len, "append-grow")
 		ex.bulkCopy(st, nil, et, &SliceV{Base: base, Off: s.Len, Len: t.Len, Cap: t.Len}, t, t.Len, "append-grow")
+		if isBytes {
+			st.setRegionSeq(newID, segs)
+		}
 		cont(st, fr, &SliceV{Base: base, Off: BVc(0, 64), Len: newLen, Cap: ncap})
 	}
 	switch {
@@ -317,6 +328,7 @@ func (ex *Exec) havocFreshBytes(st *State, base *Term, n *Term) {
 	oldArr := st.mem.arr(srt, st.memGen)
 	newArr := FreshVar("mem_h", oldArr.Sort)
 	st.mem.arrs[srt] = newArr
+	RegisterArrayFrame(newArr, oldArr, Rg(base))
 	a := BoundVar("a$hb", SAddr)
 	st.Assume(Forall([]*Term{a}, Implies(Not(Eq(Rg(a), Rg(base))), Eq(mk("select", srt, newArr, a), mk("select", srt, oldArr, a)))))
 }
@@ -356,6 +368,7 @@ func (ex *Exec) bulkCopyCompositeFresh(st *State, et types.Type, dst, src *Slice
 		oldArr := st.mem.arr(srt, st.memGen)
 		newArr := FreshVar("mem_cc", oldArr.Sort)
 		st.mem.arrs[srt] = newArr
+		RegisterArrayFrame(newArr, oldArr, Rg(dst.Base))
 		a := BoundVar("a$cc", SAddr)
 		st.Assume(Forall([]*Term{a}, Implies(Not(Eq(Rg(a), Rg(dst.Base))), Eq(mk("select", srt, newArr, a), mk("select", srt, oldArr, a)))))
 		for _, pr := range pairs {
